@@ -149,6 +149,17 @@ let handle ws = try (match ws with
     let idb = bytes_of_hex id and h = n_of_int (int_of_string hid) in
     let i = sm9_hash1_impl idb h and s = sm9_hash1_spec idb h in
     if i = s then hexz s else hexz s ^ " IMPLMODEL=" ^ hexz i
+  (* ---- DER layer: sm9_signature_from_der / sm9_ciphertext_from_der alone *)
+  | ["dersig"; hx] ->
+    (match sm9_sig_from_der (bytes_of_hex hx) with
+     | Ok ((h, s), rest) ->
+       Printf.sprintf "1 %d %s %s" (List.length (bytes_of_hex hx) - List.length rest) (hex_of_bytes h) (hex_of_bytes (List.tl s))
+     | Absent -> "0" | Err -> "-1" | Fault -> "MODEL-FAULT")
+  | ["derct"; hx] ->
+    (match sm9_ct_from_der (bytes_of_hex hx) with
+     | Ok (((c1, c3), c2), rest) ->
+       Printf.sprintf "1 %d %s %s %s" (List.length (bytes_of_hex hx) - List.length rest) (hex_of_bytes (List.tl c1)) (hex_of_bytes c3) (hex_of_bytes c2)
+     | Absent -> "0" | Err -> "-1" | Fault -> "MODEL-FAULT")
   (* ---- impl-only algebraic checks: the expected outcome is fixed *)
   | "law" :: _ -> "OK"
   | ["kat"; _; expected] -> expected
